@@ -155,6 +155,25 @@ def scenarios(ctx):
                 for end in ("silence", "eof"):
                     scs.append({"cbs": appsim.ALL, "ssl": ssl, "runs": [[["E", evs + ENDS[end]]]], "horizon": 60 * TPS,
                                 "tag": f"presplit{cut}:{first[0]}{''.join(k for k, _ in nxt)}|{end}"})
+    # the constructor's callbacks given positionally, in the documented order (3 = header, on_open, on_reconnect ... 14 = all)
+    for npos in (3, 5, 6, 8, 14):
+        for word in (["t", "p", "T", "q", "b"], ["U", "B", "p", "q"]):
+            for mask in (appsim.ALL, 0b11110101, 0b01011111):
+                sc = scenario(word, "eof", False, cbs=mask, plan={"on_message": "or"})
+                sc["positional"] = npos
+                sc["tag"] = f"{''.join(word)}|eof+positional{npos}"
+                scs.append(sc)
+    # large messages: both sides of every length-form boundary of the frame header (7-bit / 16-bit / 64-bit), the sign bit of
+    # the 16-bit form included — the handler gets the whole message
+    for ln in (125, 126, 127, 32767, 32768, 40000, 65535, 65536):
+        for k in ("b", "t", "B"):
+            body = (bytes([0x61 + (ln + j) % 26 for j in range(64)]) * (ln // 64 + 1))[:ln]
+            for ssl in (False, True):
+                if ssl and ln not in (126, 32768, 65536):
+                    continue
+                evs = [[100, 0, k, body.hex()], [200, 0, "t", "6f6b"]]
+                scs.append({"cbs": appsim.ALL, "ssl": ssl, "runs": [[["E", evs + ENDS["eof"]]]], "horizon": 60 * TPS,
+                            "tag": f"large{ln}:{k}|eof"})
     # random longer histories
     n = 3000 if ctx.thorough() else 150
     for _ in range(n):
